@@ -82,7 +82,7 @@ func (p *PostAggregationProcessor) AddExpression(outputField, originalExpr strin
 
 	expr := PostAggregationExpression{
 		OutputField:       outputField,
-		Expression:        exprTemplate,
+		Expression:        lowerSQLOperators(exprTemplate),
 		RequiredAggFields: aggFields,
 		OriginalExpr:      originalExpr,
 		processor:         p,
@@ -90,6 +90,131 @@ func (p *PostAggregationProcessor) AddExpression(outputField, originalExpr strin
 	}
 	p.expressions = append(p.expressions, expr)
 	p.fieldsCache[outputField] = aggFields
+}
+
+// lowerSQLOperators rewrites the SQL spellings of the logical and equality
+// operators in an expression template to the ones expr-lang knows: AND, OR and
+// NOT in any letter case become and, or and not, and a single = becomes ==. The
+// select list keeps the text as written (the WHERE and HAVING parsers lower these
+// tokens themselves), so "max(v) IS NULL OR k = 'a'" did not compile and the item
+// was NULL for every group. String literals and back-quoted names are copied
+// unchanged.
+//
+// Only a NOT that negates the predicate after it is lowered; the NOT of
+// IS NOT NULL, NOT LIKE, NOT IN follows an operand and stays as written for the
+// bridge, which rewrites those forms as a whole. expr-lang binds not tighter than
+// a comparison while SQL binds it looser, so the negated predicate (up to the
+// next and / or on the same level) is put in parentheses:
+// "NOT k = 'a' AND x" becomes "not (k == 'a') and x".
+func lowerSQLOperators(template string) string {
+	isWordChar := func(c byte) bool {
+		return c == '_' || c == '.' || c >= 0x80 || (c >= '0' && c <= '9') || (c >= 'a' && c <= 'z') || (c >= 'A' && c <= 'Z')
+	}
+	const (
+		atStart      = iota // nothing yet, or after ( and ,
+		afterLogical        // after and, or, not
+		afterOperand        // after anything else
+	)
+	out := make([]byte, 0, len(template)+8)
+	depth := 0
+	var negated []int // parenthesis depth of each predicate opened after a not
+	closeParen := func() {
+		// before the blanks already written
+		n := len(out)
+		for n > 0 && (out[n-1] == ' ' || out[n-1] == '\t') {
+			n--
+		}
+		blanks := string(out[n:])
+		out = append(append(out[:n], ')'), blanks...)
+	}
+	closeNegated := func() {
+		for len(negated) > 0 && negated[len(negated)-1] == depth {
+			negated = negated[:len(negated)-1]
+			closeParen()
+		}
+	}
+	prev := atStart
+	for i := 0; i < len(template); {
+		c := template[i]
+		if c == '\'' || c == '"' || c == '`' {
+			// Copy the quoted text unchanged
+			j := i + 1
+			for j < len(template) && template[j] != c {
+				j++
+			}
+			if j < len(template) {
+				j++
+			}
+			out = append(out, template[i:j]...)
+			prev = afterOperand
+			i = j
+			continue
+		}
+		if !isWordChar(c) {
+			switch c {
+			case ' ', '\t', '\n', '\r':
+				out = append(out, c)
+			case '(':
+				out = append(out, c)
+				depth++
+				prev = atStart
+			case ')':
+				closeNegated()
+				out = append(out, c)
+				if depth > 0 {
+					depth--
+				}
+				prev = afterOperand
+			case ',':
+				closeNegated()
+				out = append(out, c)
+				prev = atStart
+			case '=':
+				prevIsOp := i > 0 && strings.IndexByte("=!<>", template[i-1]) >= 0
+				nextIsEq := i+1 < len(template) && template[i+1] == '='
+				out = append(out, c)
+				if !prevIsOp && !nextIsEq {
+					out = append(out, '=')
+				}
+				prev = afterOperand
+			default:
+				out = append(out, c)
+				prev = afterOperand
+			}
+			i++
+			continue
+		}
+		j := i
+		for j < len(template) && isWordChar(template[j]) {
+			j++
+		}
+		word := template[i:j]
+		i = j
+		switch {
+		case strings.EqualFold(word, "AND") && prev == afterOperand:
+			closeNegated()
+			out = append(out, "and"...)
+			prev = afterLogical
+		case strings.EqualFold(word, "OR") && prev == afterOperand:
+			closeNegated()
+			out = append(out, "or"...)
+			prev = afterLogical
+		case strings.EqualFold(word, "NOT") && prev != afterOperand:
+			out = append(out, "not ("...)
+			negated = append(negated, depth)
+			prev = afterLogical
+			for i < len(template) && (template[i] == ' ' || template[i] == '\t') {
+				i++
+			}
+		default:
+			out = append(out, word...)
+			prev = afterOperand
+		}
+	}
+	for range negated {
+		closeParen()
+	}
+	return string(out)
 }
 
 // ProcessResults processes aggregation results and evaluates post-aggregation expressions
